@@ -576,7 +576,7 @@ pub fn run(c: &mut Ctx) {
     if !miri && !tsan {
         let rt = tokio::runtime::Builder::new_current_thread().enable_all().build().expect("tokio runtime");
         let fam = "history";
-        let total = c.total(20_000, 1_000_000);
+        let total = c.total(20_000, 20_000_000);
         for idx in c.cases(fam, total) {
             if c.out_of_time() {
                 break;
@@ -586,14 +586,14 @@ pub fn run(c: &mut Ctx) {
     }
     // real threads: each shard runs its own zone(s)
     let (rounds_n, readers, writers, rounds, workers) = if miri {
-        (1u64, 2u32, 2u32, 3u32, 2usize)
+        (c.total(1, 3), 2u32, 2u32, 3u32, 2usize)
     } else if tsan {
-        (c.total(2, 10), 4, 2, 60, 2)
+        (c.total(2, 300), 4, 2, 60, 2)
     } else {
-        (c.total(3, 30), 3, 2, 400, 2)
+        (c.total(3, 600), 3, 2, 400, 2)
     };
     for round in 0..rounds_n {
-        if c.replaying() {
+        if c.replaying() || c.out_of_time() {
             break;
         }
         stress(c, round * 1000 + c.shard, readers, writers, rounds, workers, miri);
